@@ -447,7 +447,7 @@ func TestC16(t *testing.T) {
 	genStr := rapid.Custom(func(t *rapid.T) string {
 		return strings.Join(rapid.SliceOfN(rapid.SampledFrom(chars), 0, 200).Draw(t, "chars"), "")
 	})
-	col.Rapid(app.Sub, env.PerShard(env.Pick(30000, 1000000)), func(t *rapid.T) {
+	col.Rapid(app.Sub, env.PerShard(env.Pick(200000, 2000000)), func(t *rapid.T) {
 		c := &c16Case{S: genStr.Draw(t, "s")}
 		n := len(runes(c.S))
 		switch rapid.IntRange(0, 5).Draw(t, "kind") {
@@ -478,7 +478,7 @@ func TestC16(t *testing.T) {
 	})
 
 	sp := c16Split.On(col, "rapid: 0..6 non-empty pieces free of the separator, joined by a non-space separator of 1..2 characters; oracle: split gives back exactly the pieces (count and content) and join of the split gives back the string. Non-trivial: >= 2 pieces; distinct by string+separator", false)
-	col.Rapid(sp.Sub, env.PerShard(env.Pick(10000, 300000)), func(t *rapid.T) {
+	col.Rapid(sp.Sub, env.PerShard(env.Pick(60000, 600000)), func(t *rapid.T) {
 		sep := rapid.SampledFrom([]string{",", ";", "--", "é", "😀", "&", "<>", "|", "ab"}).Draw(t, "sep")
 		piece := rapid.Custom(func(t *rapid.T) string {
 			var al []string
